@@ -353,8 +353,36 @@ def check_pose_action(fx, R):
             R.undecided('K3', 'operator*:result' + tag, 'result not readable')
             continue
         pos = res.get('position')
-        okp = isinstance(pos, sp.MatrixBase) and (sp.Matrix(pos) - (A * p + t)).expand() == sp.zeros(3, 1)
-        R.check(bool(okp), 'K3', 'operator*:position' + tag, "position' is %s, expected R*p + T" % (pos,), "p' = R p + T", loc, 'E-ALG')
+        if not isinstance(pos, sp.MatrixBase) or pos.shape != (3, 1) or any(not isinstance(x_, sp.Basic) or x_.atoms(sp.core.function.AppliedUndef) for x_ in pos):
+            R.undecided('K3', 'operator*:position' + tag, "position' is not readable on this path (%s)" % (str(pos)[:120],))
+        else:
+            dpos = (sp.Matrix(pos) - (A * p + t)).expand()
+            okp = dpos == sp.zeros(3, 1)
+            real_conds = [c for c in st.cond if c[0] not in ('True', 'False')]
+            if okp:
+                R.holds('K3', 'operator*:position' + tag, "p' = R p + T", loc, 'E-ALG')
+            elif not real_conds:
+                R.violated('K3', 'operator*:position', "position' is %s, expected R*p + T" % (pos,), loc, 'E-ALG')
+            else:
+                # a conditional path: the difference may vanish under the path's conditions.  It cannot when it moves with a quantity the conditions do not mention at all: whatever inputs reach the path,
+                # changing that quantity alone keeps them on the path and changes the difference, so it is not zero for all of them
+                csyms = set()
+                for c in real_conds:
+                    csyms |= (c[1].free_symbols if isinstance(c[1], sp.Basic) else set())
+                free = None
+                for k_ in range(3):
+                    for s_ in sorted(dpos[k_].free_symbols - csyms, key=str):
+                        d_ = sp.diff(dpos[k_], s_)
+                        if d_.is_number and d_ != 0:
+                            free = free or (k_, s_, d_)
+                if free:
+                    nm = {str(t[i]): 'translation %s' % 'xyz'[i] for i in range(3)}
+                    R.violated('K3', 'operator*:position:shortcut', "on the path [%s] component %s of the new position is %s where the SE(3) action gives %s: the difference moves one for one with %s, which the "
+                               "path's conditions do not mention - for whatever pose and rotation the shortcut is taken, it is taken for every translation, and the result is right for at most one value of that "
+                               "component (the %s of the transform is dropped or altered on this path)" % (desc[:200], 'xyz'[free[0]], pos[free[0]], (A * p + t)[free[0]], free[1], nm.get(str(free[1]), str(free[1]))),
+                               loc, 'E-ALG')
+                else:
+                    R.undecided('K3', 'operator*:position' + tag, "position' on this path is %s, which equals R*p + T only under the path's conditions; they are not decided here" % (str(pos.T.tolist())[:200],))
         ori = res.get('orientation')
         ok_o = isinstance(ori, sp.MatrixBase) and all(isinstance(ori[k, 0], sp.Basic) and str(ori[k, 0].func) == 'mod2pi' and sp.expand(ori[k, 0].args[0] - want_o[k]) == 0 or
                                                     (isinstance(ori[k, 0], sp.Basic) and str(ori[k, 0].func) == 'mod2pi' and ori[k, 0].args[0] == want_o[k]) for k in range(3))
@@ -511,13 +539,34 @@ def check_ellipse(fx, R):
     svd = [n for n, d in decls.items() if isinstance(d, tuple) and str(d[0]).startswith('new:Eigen::JacobiSVD') and len(d) > 1 and d[1] == 'covarianceMatrix']
     eig = [n for n, d in decls.items() if isinstance(d, tuple) and str(d[0]).startswith('new:Eigen::SelfAdjointEigenSolver') and len(d) > 1 and d[1] == 'covarianceMatrix']
     maj, mnr, ori = expand(assigns.get('this.majorRadius_')), expand(assigns.get('this.minorRadius_')), expand(assigns.get('this.orientation_'))
+    P3 = f['params'][2]['name']
+    law = None
     if svd:
         sv = svd[0]
         val = lambda k: ('()', ('.singularValues', sv), k)
         vec_ = lambda i, j: ('()', ('.matrixU', sv), i, j)
+        # the scale law of the constructor: radii sqrt(value) * P (P is a number of sigmas) or sqrt(value * P) (P is a squared Mahalanobis radius); what the callers pass is judged against it below
+        def radius_form(x):
+            for k_ in (0, 1):
+                if x in (('*', ('sqrt', val(k_)), P3), ('*', P3, ('sqrt', val(k_)))):
+                    return (k_, 'lin')
+                if x in (('sqrt', ('*', val(k_), P3)), ('sqrt', ('*', P3, val(k_)))):
+                    return (k_, 'sq')
+            return None
+        fm_, fn_ = radius_form(maj), radius_form(mnr)
+        if fm_ and fn_ and fm_[1] == fn_[1]:
+            law = fm_[1]
+        sig_ = lambda k_: ('*', ('sqrt', val(k_)), 'sigmaScale')
+        if law == 'sq' or (law == 'lin' and P3 != 'sigmaScale'):
+            # normalise to the enumerated spelling so that the index rules below read both laws
+            maj = sig_(fm_[0])
+            mnr = sig_(fn_[0]) if not (isinstance(mnr, tuple) and mnr[0] == '?:') else mnr
+        elif fm_ and fn_ and fm_[1] != fn_[1]:
+            R.violated('K4', 'Ellipse(covariance):scale-law', 'the major radius is %s and the minor radius %s: the two semi-axes scale differently with the third argument (one linearly, one with its square root), so for '
+                       'every scale other than 1 R diag(major^2, minor^2) R^T / sigma^2 does not reproduce the covariance' % (assigns.get('this.majorRadius_'), assigns.get('this.minorRadius_')), loc, 'E-SIB')
         ok = maj == ('*', ('sqrt', val(0)), 'sigmaScale') and mnr == ('*', ('sqrt', val(1)), 'sigmaScale') and ori == ('atan2', vec_(1, 0), vec_(0, 0))
         if ok:
-            R.holds('K4', 'Ellipse(covariance):axes', 'major <- singular value 0, minor <- 1, orientation <- column 0 of U, radii sqrt(value)*sigma', loc, 'E-SIB')
+            R.holds('K4', 'Ellipse(covariance):axes', 'major <- singular value 0, minor <- 1, orientation <- column 0 of U, radii %s' % ('sqrt(value)*scale' if law != 'sq' else 'sqrt(value*squared scale)'), loc, 'E-SIB')
         else:
             sw = maj == ('*', ('sqrt', val(1)), 'sigmaScale') and mnr == ('*', ('sqrt', val(0)), 'sigmaScale')
             def kidx(x):
@@ -578,7 +627,27 @@ def check_ellipse(fx, R):
                         'implicitly and silently truncated to 2 (or 0) before it reaches the radii, so R diag(major^2, minor^2) R^T / sigma^2 reproduces the covariance only for integral scales (the quantifier has every '
                         'scale in (0, 10])' % tsg.get('s'), 'sigma scale is a floating parameter', fx.rel(g['loc']), 'E-INT')
             ok = st2 == (want_pose if is_pose else want_pos)
-            if ok:
+            # what reaches the constructor's third parameter, composed with the constructor's scale law, must be the caller's sigma (sibling callers of one constructor must agree on the meaning of that parameter)
+            psg = sg['name'] if sg is not None else 'sigmaScale'
+            third = None
+            if len(st2) == 1 and st2[0][0] == 'return' and isinstance(st2[0][1], tuple) and st2[0][1][0] == 'new:Ellipse' and len(st2[0][1]) == 4:
+                third = deep_unwrap(st2[0][1][3])
+            passed = 'sigma' if third == psg else 'sigma^2' if third in (('*', psg, psg), ('pow', psg, 2), ('std::pow', psg, 2)) else None
+            who = 'Pose2D' if is_pose else 'Position2D'
+            if law and passed:
+                eff = {('lin', 'sigma'): 'sigma', ('lin', 'sigma^2'): 'sigma^2', ('sq', 'sigma'): 'sqrt(sigma)', ('sq', 'sigma^2'): 'sigma'}[(law, passed)]
+                if eff != 'sigma':
+                    w_ = {'sigma^2': '4 (twice too large)', 'sqrt(sigma)': '1.41 (the two-sigma ellipse comes out as the 1.41-sigma one)'}[eff]
+                    R.violated('K4', 'uncertaintyEllipse(%s):scale-law' % who, 'this overload hands %s to the Ellipse constructor, whose radii are %s of its third parameter `%s`: the semi-axes come out scaled by %s instead of '
+                               'sigma - for sigma = 2 by %s, so R diag(major^2, minor^2) R^T / sigma^2 is not the covariance%s' % (
+                                   {'sigma': 'its sigma scale unchanged', 'sigma^2': 'the SQUARE of its sigma scale'}[passed], {'lin': 'sqrt(value) TIMES', 'sq': 'the square root of value times'}[law], P3, eff, w_,
+                                   ' (callers of one constructor must agree with it on what its third parameter means)'), fx.rel(g['loc']), 'E-SIB')
+                    continue
+                if ok or (st2 == [('return', ('new:Ellipse',) + (want_pose if is_pose else want_pos)[0][1][1:3] + (st2[0][1][3],))]):
+                    R.holds('K4', 'uncertaintyEllipse(%s)' % who, 'position, xy covariance block, %s handed to a constructor whose radii are %s of it: semi-axes scale with sigma' % (
+                        passed, {'lin': 'sqrt(value) times', 'sq': 'sqrt(value times ...)'}[law]), fx.rel(g['loc']), 'E-SIB')
+                    continue
+            if ok and law in (None, 'lin'):
                 R.holds('K4', 'uncertaintyEllipse(%s)' % ('Pose2D' if is_pose else 'Position2D'), 'position, xy covariance block, sigma', fx.rel(g['loc']), 'E-SIB')
             else:
                 R.undecided('K4', 'uncertaintyEllipse(%s)' % ('Pose2D' if is_pose else 'Position2D'), 'idiom not recognised: %s' % (st2,))
